@@ -252,9 +252,6 @@ func (s *Solver) Check(pc []*Term, extra *Term, want []*Term) (SatResult, map[*T
 		for _, w := range want {
 			s.define(w)
 			q := ref(w)
-			if w.S.K == SF32 || w.S.K == SF64 {
-				q = "(fp.to_ieee_bv " + q + ")"
-			}
 			s.send("(get-value (" + q + "))")
 			v, e := s.readValue()
 			if e != nil {
@@ -313,6 +310,9 @@ func (s *Solver) readValue() (uint64, error) {
 	txt := strings.TrimSpace(sb.String())
 	if strings.HasPrefix(txt, "(error") {
 		return 0, fmt.Errorf("solver error: %s", txt)
+	}
+	if v, ok := parseFPValue(txt); ok {
+		return v, nil
 	}
 	// take the last atom(s)
 	txt = strings.TrimSuffix(strings.TrimSuffix(txt, ")"), ")")
@@ -466,4 +466,64 @@ func (s *Solver) SecondOpinion(pc []*Term, extra *Term, timeoutS int) (SatResult
 		return got.r, got.who
 	}
 	return Unknown, ""
+}
+
+func bitsOf(tok string) (string, bool) {
+	if strings.HasPrefix(tok, "#b") {
+		return tok[2:], true
+	}
+	if strings.HasPrefix(tok, "#x") {
+		var sb strings.Builder
+		for _, c := range tok[2:] {
+			v, err := strconv.ParseUint(string(c), 16, 8)
+			if err != nil {
+				return "", false
+			}
+			sb.WriteString(fmt.Sprintf("%04b", v))
+		}
+		return sb.String(), true
+	}
+	return "", false
+}
+
+// parseFPValue recognises (fp s e m), (_ NaN eb sb), (_ +oo eb sb), (_ -oo ..), (_ +zero ..), (_ -zero ..)
+// anywhere at the end of a get-value reply.
+func parseFPValue(txt string) (uint64, bool) {
+	clean := strings.NewReplacer("(", " ", ")", " ").Replace(txt)
+	f := strings.Fields(clean)
+	n := len(f)
+	if n >= 4 && f[n-4] == "fp" {
+		var all string
+		for _, t := range f[n-3:] {
+			b, ok := bitsOf(t)
+			if !ok {
+				return 0, false
+			}
+			all += b
+		}
+		v, err := strconv.ParseUint(all, 2, 64)
+		return v, err == nil
+	}
+	if n >= 4 && f[n-4] == "_" {
+		eb, _ := strconv.Atoi(f[n-2])
+		sb, _ := strconv.Atoi(f[n-1])
+		if eb == 0 || sb == 0 {
+			return 0, false
+		}
+		w := eb + sb
+		expAll := ((uint64(1) << uint(eb)) - 1) << uint(sb-1)
+		switch f[n-3] {
+		case "NaN":
+			return expAll | (uint64(1) << uint(sb-2)), true
+		case "+oo":
+			return expAll, true
+		case "-oo":
+			return expAll | (uint64(1) << uint(w-1)), true
+		case "+zero":
+			return 0, true
+		case "-zero":
+			return uint64(1) << uint(w-1), true
+		}
+	}
+	return 0, false
 }
